@@ -25,10 +25,15 @@ type c08case struct {
 	tls      bool
 	passHost bool
 	group    string
+	absolute bool // the request line carries the absolute form (http://host/path?query), as a client talking to a proxy sends it
 }
 
 func (c c08case) String() string {
-	return fmt.Sprintf("GET %s host=%q peer=%s tls=%v passHost=%v headers=%v", c.target, c.host, c.peer, c.tls, c.passHost, c.headers)
+	t := c.target
+	if c.absolute {
+		t = "http://" + c.host + t
+	}
+	return fmt.Sprintf("GET %s host=%q peer=%s tls=%v passHost=%v headers=%v", t, c.host, c.peer, c.tls, c.passHost, c.headers)
 }
 
 var hopByHop = map[string]bool{"Connection": true, "Proxy-Connection": true, "Keep-Alive": true, "Proxy-Authenticate": true,
@@ -98,9 +103,12 @@ func headerCases() [][][2]string {
 func c08cases(tier string) []c08case {
 	var out []c08case
 	ts := targets()
-	for _, t := range ts {
+	for i, t := range ts {
 		for _, ph := range []bool{false, true} {
-			out = append(out, c08case{t, [][2]string{{"Accept", "*/*"}}, "front.example", "1.2.3.4:5", false, ph, "targets"})
+			out = append(out, c08case{t, [][2]string{{"Accept", "*/*"}}, "front.example", "1.2.3.4:5", false, ph, "targets", false})
+			if i%7 == 3 && strings.HasPrefix(t, "/") && !strings.HasPrefix(t, "//") {
+				out = append(out, c08case{t, [][2]string{{"Accept", "*/*"}}, "public.example", "1.2.3.4:5", false, ph, "targets", true})
+			}
 		}
 	}
 	hosts := []string{"front.example", "front.example:8080", "[2001:db8::1]:8443"}
@@ -115,7 +123,7 @@ func c08cases(tier string) []c08case {
 							if tier != "thorough" && hi >= 12 && (len(t)+len(h)+len(p))%3 != hi%3 {
 								continue // quick: a third of the (target,host,peer) combinations per forwarding-header case
 							}
-							out = append(out, c08case{t, hs, h, p, tl, ph, "headers"})
+							out = append(out, c08case{t, hs, h, p, tl, ph, "headers", false})
 						}
 					}
 				}
@@ -284,7 +292,11 @@ func parseWire(b []byte) (*wire, error) {
 }
 
 func runC08(w *world, c c08case, rep *lib.Report) {
-	raw := lib.RawRequest("GET", c.target, append([][2]string{}, c.headers...), nil, 0)
+	lineTarget := c.target
+	if c.absolute {
+		lineTarget = "http://" + c.host + c.target
+	}
+	raw := lib.RawRequest("GET", lineTarget, append([][2]string{}, c.headers...), nil, 0)
 	raw = strings.Replace(raw, "Host: client.example\r\n", "Host: "+c.host+"\r\n", 1)
 	req, err := lib.ParseRequest(raw)
 	if err != nil {
